@@ -64,7 +64,7 @@ CHECKS = {
             {"engine": "hashmap", "profile": "dev", "cases": {"quick": 4000, "thorough": 40000}, "primary": True},
             {"engine": "hashmap", "profile": "release", "cases": {"quick": 0, "thorough": 20000}, "primary": False},
             asan("hashmap", 320, 8000),
-            miri("hashmap", 1, 64),
+            miri("hashmap", 1, 40),
         ],
         "hard_floor": {"evaluations": 100, "counters": {"ops_compared": 1000}},
         "targets": {
@@ -88,7 +88,7 @@ CHECKS = {
             {"engine": "handletable", "profile": "dev", "cases": {"quick": 4000, "thorough": 40000}, "primary": True},
             {"engine": "handletable", "profile": "release", "cases": {"quick": 0, "thorough": 20000}, "primary": False},
             asan("handletable", 320, 8000),
-            miri("handletable", 1, 64),
+            miri("handletable", 1, 40),
         ],
         "hard_floor": {"evaluations": 100, "counters": {"ops_compared": 1000}},
         "targets": {
@@ -110,7 +110,7 @@ CHECKS = {
             {"engine": "stacks", "profile": "dev", "cases": {"quick": 6000, "thorough": 80000}, "primary": True},
             {"engine": "stacks", "profile": "release", "cases": {"quick": 0, "thorough": 40000}, "primary": False},
             asan("stacks", 320, 8000),
-            miri("stacks", 1, 96),
+            miri("stacks", 1, 40),
         ],
         "hard_floor": {"evaluations": 100, "counters": {"ops_compared": 1000}},
         "targets": {"quick": {"ops_compared": 100000}, "thorough": {"ops_compared": 1000000}},
@@ -140,8 +140,8 @@ CHECKS = {
         "technique": "runtime monitoring: differential execution of generated well-scoped programs against an independent reference interpreter, comparing observable outcome (globals, host-call log, result kind)",
         "rule": "seeded structure-aware generator (case idx -> PRNG seed) producing programs that are well-scoped by construction; distinct by JSON hash; non-trivial when the VM executed >= 25 instructions and the program ran >= 2 loops/calls and both executions agreed",
         "engines": [
-            {"engine": "prog", "profile": "dev", "cases": {"quick": 4000, "thorough": 100000}, "primary": True},
-            {"engine": "prog", "profile": "release", "cases": {"quick": 0, "thorough": 100000}, "primary": False},
+            {"engine": "prog", "profile": "dev", "cases": {"quick": 4000, "thorough": 60000}, "primary": True},
+            {"engine": "prog", "profile": "release", "cases": {"quick": 0, "thorough": 60000}, "primary": False},
         ],
         "hard_floor": {"evaluations": 100, "counters": {"vm_instructions": 10000}},
         "targets": {"quick": {"card:.*": 100000, "feat:call-from-callee": 1000, "programs_with_native_reentry": 200},
@@ -174,8 +174,8 @@ CHECKS = {
         "rule": "seeded hostile inputs; distinct by JSON hash; every completed case is non-trivial (it exercised compile and, for run cases, the VM under the stated limits)",
         "hang_is_violation": True,
         "engines": [
-            {"engine": "total", "profile": "dev", "cases": {"quick": 6000, "thorough": 60000}, "primary": True, "max_restarts": 200},
-            {"engine": "total", "profile": "release", "cases": {"quick": 0, "thorough": 40000}, "primary": False, "max_restarts": 200},
+            {"engine": "total", "profile": "dev", "cases": {"quick": 6000, "thorough": 40000}, "primary": True, "max_restarts": 200},
+            {"engine": "total", "profile": "release", "cases": {"quick": 0, "thorough": 25000}, "primary": False, "max_restarts": 200},
             asan("total", 320, 8000, max_restarts=200),
         ],
         "hard_floor": {"evaluations": 100, "counters": {"compile:.*": 100, "run:.*": 100}},
@@ -204,7 +204,7 @@ CHECKS = {
         "technique": "runtime monitoring with fault injection: forced collections enumerated over allocation points, heap-reachability audit at hooks, released-memory checksums, self-differential outcome, AddressSanitizer",
         "rule": "seeded programs x enumerated GC schedules; evaluations = programs; distinct by JSON hash of program+inputs; non-trivial when the program has >= 5 allocation points and all schedules agreed",
         "engines": [
-            {"engine": "gc", "profile": "dev", "cases": {"quick": 1500, "thorough": 40000}, "primary": True},
+            {"engine": "gc", "profile": "dev", "cases": {"quick": 1500, "thorough": 25000}, "primary": True},
             {"engine": "gc", "profile": "asan", "cases": {"quick": 50, "thorough": 4000}, "primary": False, "args": {"sanitizer": 1, "max-singles": 32},
              "env": {"CAOVERIF_STACK_MB": "2048", "ASAN_OPTIONS": "detect_leaks=1:abort_on_error=0:halt_on_error=1"}, "stall_s": 120},
         ],
@@ -234,7 +234,7 @@ CHECKS = {
         "technique": "runtime monitoring: per-dispatch instruction counter checked against the budget online, self-differential across budgets",
         "rule": "seeded programs (40% non-terminating templates) x enumerated budgets; evaluations = programs; non-trivial when all budgets were judged",
         "engines": [
-            {"engine": "budget", "profile": "dev", "cases": {"quick": 2500, "thorough": 60000}, "primary": True},
+            {"engine": "budget", "profile": "dev", "cases": {"quick": 2500, "thorough": 40000}, "primary": True},
             {"engine": "budget", "profile": "release", "cases": {"quick": 0, "thorough": 30000}, "primary": False},
         ],
         "hard_floor": {"evaluations": 100, "counters": {"runs_ending_in_Timeout": 200, "budgeted_runs": 1000}},
@@ -249,7 +249,7 @@ CHECKS = {
         "technique": "runtime monitoring: offline allocation-ledger checker over hook event logs, forced collection after OutOfMemory, churn/growth workloads with known answers (live data calibrated to 60 % of the limit); AddressSanitizer/LeakSanitizer build",
         "rule": "seeded run/clear histories over program pools; evaluations = histories; non-trivial when the whole history was checked",
         "engines": [
-            {"engine": "lifecycle", "profile": "dev", "cases": {"quick": 400, "thorough": 12000}, "primary": True, "args": {"property": "c05"}},
+            {"engine": "lifecycle", "profile": "dev", "cases": {"quick": 400, "thorough": 5000}, "primary": True, "args": {"property": "c05"}},
             asan("lifecycle", 24, 1500, args={"property": "c05", "light": 1}),
         ],
         "hard_floor": {"evaluations": 100, "counters": {"ledger_events": 100000, "collections": 100}},
@@ -264,7 +264,7 @@ CHECKS = {
         "technique": "runtime monitoring: run histories on one VM against a fresh-VM twin executed in lock-step on a newly created thread; re-runs inside a history compared with the first; AddressSanitizer/LeakSanitizer build",
         "rule": "seeded run/clear histories over program pools; evaluations = histories; non-trivial when the whole history was compared",
         "engines": [
-            {"engine": "lifecycle", "profile": "dev", "cases": {"quick": 400, "thorough": 12000}, "primary": True, "args": {"property": "c17"}},
+            {"engine": "lifecycle", "profile": "dev", "cases": {"quick": 400, "thorough": 5000}, "primary": True, "args": {"property": "c17"}},
             asan("lifecycle", 24, 1500, args={"property": "c17", "light": 1}),
         ],
         "hard_floor": {"evaluations": 100, "counters": {"runs": 2000}},
